@@ -84,7 +84,8 @@ REQUIRED_CLAUSES = ["args-unchanged", "module-tables-unchanged",
                     "out-of-range->TypeError|ValueError|value",
                     "reused-argument-objects", "results-own-their-state",
                     "result-is-not-an-argument-object", "public-api-present",
-                    "interleaved-calls==sequential", "int-form==float-form"]
+                    "interleaved-calls==sequential", "int-form==float-form",
+                    "args-unchanged-during-call"]
 
 
 # ------------------------------------------------------------------ discovery
@@ -659,7 +660,12 @@ def inst_args(rng, qual, an, inst):
                            [2451545.0 + rng.uniform(-1e5, 1e5)],
                            [Epoch(y, m, d)]))
     if cls == "Epoch" and an in ("get_date", "get_full_date"):
-        return []
+        # plain, and with each documented option (local=True excepted: it
+        # reads the wall clock); the options with their default values too
+        return rng.choice(([], [], [KW(utc=True)], [KW(utc=False)],
+                           [KW(local=False)],
+                           [KW(leap_seconds=rng.choice((0.0, 35.0, 10)))],
+                           [KW(utc=True, local=False)]))
     if cls in ("Interpolation", "CurveFitting") and an in ("set",
                                                            "__init__"):
         xs = [float(i) for i in range(4)]
@@ -682,8 +688,11 @@ def inst_args(rng, qual, an, inst):
         return [6378140.0, 1 / 298.257, 7.292114992e-5]
     if cls == "Minor" and an in ("set", "__init__"):
         return [rng.uniform(0.3, 5.0), rng.uniform(0.0, 0.9),
-                Angle(rng.uniform(0, 60)), Angle(rng.uniform(0, 360)),
-                Angle(rng.uniform(0, 360)),
+                Angle(rng.uniform(0, 60)),
+                # node and argument of perihelion in either representation
+                # (the library's own orbital-element functions return
+                # negative arguments of perihelion)
+                Angle(rng.uniform(-360, 360)), Angle(rng.uniform(-360, 360)),
                 Epoch(jd_of_year(rng.uniform(1950, 2050)))]
     if cls == "Minor":
         return [Epoch(jd_of_year(rng.uniform(1950, 2050)))]
@@ -713,6 +722,64 @@ def resolve(target):
     if cname is None:
         return getattr(mod, an), None
     return getattr(getattr(mod, cname), an), getattr(mod, cname)
+
+
+_WATCH = {"items": None, "hit": None, "on": False, "n": 0}
+
+
+def watch_install():
+    """PY_START observer: while a monitored call runs, every entry into a
+    library function (the callees of the call) compares the caller's Angle /
+    Epoch objects with their values at the start of the call.  A value that
+    is changed and put back before the call returns is invisible to the
+    before/after snapshots; it is visible here whenever the library calls one
+    of its own functions in between, and to any other thread or re-entrant
+    caller that reads the object meanwhile."""
+    import sys
+    sm = getattr(sys, "monitoring", None)
+    if sm is None or _WATCH["on"]:
+        return
+    import pymeeus
+    libdir = os.path.dirname(os.path.abspath(pymeeus.__file__)) + os.sep
+    WT = 5
+
+    def on_start(code, offset):
+        w = _WATCH["items"]
+        if w is None:
+            return None
+        if not code.co_filename.startswith(libdir):
+            return sm.DISABLE
+        _WATCH["n"] += 1
+        for obj, attr, val in w:
+            now = getattr(obj, attr, val)
+            if now != val and _WATCH["hit"] is None:
+                _WATCH["hit"] = {"entered": code.co_qualname,
+                                 "object": type(obj).__name__,
+                                 "attribute": attr, "at_call": repr(val),
+                                 "seen": repr(now)}
+        return None
+
+    try:
+        sm.use_tool_id(WT, "vpm-watch")
+    except ValueError:
+        return
+    sm.register_callback(WT, sm.events.PY_START, on_start)
+    sm.set_events(WT, sm.events.PY_START)
+    _WATCH["on"] = True
+
+
+def watch_items(objs, depth=0):
+    out = []
+    for o in objs:
+        t = type(o).__name__
+        if t == "Angle":
+            out.append((o, "_deg", o._deg))
+            out.append((o, "_tol", o._tol))
+        elif t == "Epoch":
+            out.append((o, "_jde", o._jde))
+        elif isinstance(o, (list, tuple)) and depth < 2:
+            out += watch_items(o, depth + 1)
+    return out
 
 
 class Universe(object):
@@ -797,9 +864,14 @@ class Universe(object):
         else:
             mon.cls("call", ident)
         self.recent.append(qual)
+        watched = watch_items(list(args) + (
+            [inst] if inst is not None and short not in MUTATORS else []))
+        _WATCH["hit"] = None
+        _WATCH["items"] = watched or None
         try:
             res = fn(args)
         except Exception as ex:
+            _WATCH["items"] = None
             if owned_elsewhere(qual, ex):
                 mon.refusal("owned-by-C13/C09:" + qual)
                 return None
@@ -808,6 +880,11 @@ class Universe(object):
                         {"target": qual, "args": args, "raised": repr(ex)},
                         key_total(qual, ex))
             return None
+        _WATCH["items"] = None
+        if watched and _WATCH["on"]:
+            hit = _WATCH["hit"]
+            mon.check("args-unchanged-during-call", hit is None,
+                      lambda: dict(hit, target=qual, args=args))
         mon.ok("total-on-domain")
         after = snap(args)
         mon.check("args-unchanged", after == before,
@@ -1192,6 +1269,7 @@ def case_module(mon, module, ncalls, npairs, seedval):
     targets = [t for t in discover() if t[1] == module]
     everything = discover()
     uni = Universe(mon, rng)
+    watch_install()
     for t in targets:
         for _ in range(ncalls):
             mon.begin("call", [t[0], seedval])
@@ -1279,7 +1357,10 @@ def case_threads(mon, njobs, seedval):
             if n < half:
                 meet.wait()
             t, sets = jobs[j]
-            a, i = sets[k][1]
+            # the first quarter of the jobs: the four threads *share* one
+            # set of argument objects and one receiver (several readers of
+            # one Angle / Epoch; none of these targets is a mutator)
+            a, i = sets[0 if j < half // 2 else k][1]
             s0 = next(tick)
             try:
                 r = ("value", snap(one(t, a, i)))
@@ -1343,11 +1424,12 @@ def case_threads(mon, njobs, seedval):
                 overlapped.add((x[2], x[3]))
         open_.append((s0, s1, k, j))
     mon.hit("threaded-calls", NT * len(jobs))
+    mon.hit("threaded-calls-on-shared-objects", NT * (half // 2))
     mon.hit("threaded-calls-overlapping-another-thread", len(overlapped))
     for k in range(NT):
         for j in range(len(jobs)):
             t, sets = jobs[j]
-            ref = sets[k][0]
+            ref = sets[0 if j < half // 2 else k][0]
             mon.evals += 1
             if (k, j) not in overlapped:
                 continue
